@@ -603,7 +603,7 @@ pub fn run(tier: Tier) -> i32 {
     let mut ctx = Ctx::new("C01", tier);
     let pre = preflight();
     let seed = ctx.seed;
-    let per = tier.n(150, 2500);
+    let per = tier.n(150, 10_000);
     let mut tally = ctx.par(64, |s| shard(seed, s, per, tier));
     let sp = ctx.par(16, |s| sig_positions(seed, s, tier.n(2, 125), if tier == Tier::Quick { 3 } else { 15 }));
     tally.merge(sp);
